@@ -283,6 +283,8 @@ fn observe(p: &Packet) -> std::result::Result<(), String> {
     for r in p.answers.iter().chain(p.name_servers.iter()).chain(p.additional_records.iter()) {
         try_it("display-name", &|| { let _ = format!("{} {:?} {}", r.name, r.name, r.name.to_string()); for l in r.name.get_labels() { let _ = format!("{} {:?}", l, l); } })?;
         try_it("debug-record", &|| { let _ = format!("{:?} {:?}", r, r.rdata); })?;
+        // the text of the first label is what service discovery shows as the instance name, with and without escapes
+        try_it("instance-name", &|| { if let Some(l) = r.name.get_labels().first() { for text in [l.to_string(), r.name.to_string()] { let i = simple_mdns::InstanceInformation::new(text); let _ = (i.escaped_instance_name(), i.unescaped_instance_name(), format!("{:?}", i)); } } })?;
         try_it("into-owned", &|| { let o = r.clone().into_owned(); let _ = o == *r; let _ = h(&o); let _ = h(&o.rdata); })?;
         try_it("name-relations", &|| { let _ = r.name.is_link_local(); for q in &p.questions { let _ = r.name.is_subdomain_of(&q.qname); let _ = r.name.without(&q.qname); let _ = r.match_qtype(q.qtype); let _ = r.match_qclass(q.qclass); } })?;
         match &r.rdata {
@@ -325,7 +327,7 @@ pub fn c12(tier: &str, seed: u64) -> Vec<Case> {
     // labels that look like several labels once rendered (dots, escapes inside a label), against names
     // whose labels are those pieces: the relations between names are evaluated on every pair
     {
-        let labels: [&[u8]; 9] = [b"a.b.c", b"b", b"c", b"a", b"b.c", b"office._tcp.local", b"_tcp", b"local", b"x.y\\z"];
+        let labels: [&[u8]; 13] = [b"a.b.c", b"b", b"c", b"a", b"b.c", b"office._tcp.local", b"_tcp", b"local", b"x.y\\z", b"Files on C:\\", b"Caf\\\xc3\xa9", b"x\\\xff", b"\\"];
         let mut names: Vec<Vec<Vec<u8>>> = vec![vec![]];
         for l in labels { names.push(vec![l.to_vec()]); }
         for l in labels { for m in labels { names.push(vec![l.to_vec(), m.to_vec()]); } }
@@ -348,13 +350,53 @@ pub fn c12(tier: &str, seed: u64) -> Vec<Case> {
             }
         }
     }
+    // maximal lengths: TXT records of many full character-strings (up to the RDLENGTH limit), key/value text and
+    // arbitrary bytes; opaque fields of tens of kilobytes; names of 127 labels and of four 63-octet labels
+    {
+        let mut r = crate::rng::Rng::new(seed ^ 0xB16);
+        let counts: &[usize] = if thorough { &[6, 7, 8, 9, 10, 11, 12, 16, 17, 33, 64, 65, 128, 129, 200, 255] } else { &[7, 8, 9, 10, 17, 65, 255] };
+        for &n in counts {
+            for style in 0..4 {
+                let mut t = rdata::TXT::new();
+                for k in 0..n {
+                    let len = if style == 3 { r.below(256) as usize } else { 255 };
+                    let mut sbytes: Vec<u8> = match style { 0 => format!("key{}=", k).into_bytes(), 1 => vec![], _ => "é=".as_bytes().to_vec() };
+                    while sbytes.len() < len { sbytes.push(match style { 0 => b'v', 1 => r.next() as u8, _ => [0xC3u8, 0xA9, b';', b'='][sbytes.len() % 4] }); }
+                    sbytes.truncate(len);
+                    t.add_char_string(crate::gen::mk_cs(&sbytes));
+                }
+                let mut p = Packet::new_reply(3);
+                p.answers.push(ResourceRecord::new(Name::new_unchecked("t"), CLASS::IN, 0, RData::TXT(t)));
+                if let Ok(b) = p.build_bytes_vec() { inputs.push((b, "large-txt".to_string())); }
+            }
+        }
+        for size in [3000usize, 20000, 65000] {
+            let blob = r.bytes(size);
+            for rd in [RData::NULL(10, rdata::NULL::new(&blob).unwrap()).into_owned(), RData::NULL(65280, rdata::NULL::new(&blob).unwrap()).into_owned(),
+                       RData::CAA(rdata::CAA { flag: 0, tag: crate::gen::mk_cs(b"issue"), value: blob.clone().into() }), RData::DNSKEY(rdata::DNSKEY { flags: 257, protocol: 3, algorithm: 8, public_key: blob.clone().into() })] {
+                let mut p = Packet::new_reply(4);
+                p.answers.push(ResourceRecord::new(Name::new_unchecked("big"), CLASS::IN, 0, rd));
+                if let Ok(b) = p.build_bytes_vec() { inputs.push((b, "large-opaque".to_string())); }
+            }
+        }
+        let deep: Vec<Vec<u8>> = (0..127).map(|k| vec![[b'a', 0xFF, b'.', b'\\'][k % 4]]).collect();
+        let wide: Vec<Vec<u8>> = (0..3).map(|k| vec![[0xFEu8, b'.', b'x'][k]; 63]).chain([vec![b'\\'; 61]]).collect();
+        for labels in [deep, wide] {
+            let mut p = Packet::new_reply(5);
+            p.questions.push(Question::new(mk_name(&labels), TYPE::A.into(), CLASS::IN.into(), false));
+            p.answers.push(ResourceRecord::new(mk_name(&labels), CLASS::IN, 1, RData::PTR(rdata::PTR(mk_name(&labels)))));
+            p.answers.push(ResourceRecord::new(mk_name(&labels[1..]), CLASS::IN, 1, RData::SRV(rdata::SRV { priority: 0, weight: 0, port: 1, target: mk_name(&labels) })));
+            if let Ok(b) = p.build_bytes_vec() { inputs.push((b, "large-names".to_string())); }
+        }
+    }
     for (b, tag) in inputs {
         let parsed = std::panic::catch_unwind(|| Packet::parse(&b).ok()).unwrap_or(None);
         let p = match parsed { Some(p) => p, None => continue };
-        watch(&format!("observe {}", text::hex(&b)));
+        watch(&format!("observe {}", text::hex(&b[..b.len().min(4000)])));
         let res = observe(&p);
         let out = match &res { Ok(()) => "ok".to_string(), Err(_) => "panic".to_string() };
         let mut c = Case::new(format!("observe {}", text::hex(&b)), out).proj(Proj::NoPanic).tag(&tag);
+        if b.len() > 6000 { c.proj = Proj::None; c.op = String::new(); }
         if let Err(what) = res { c = c.fail(&format!("observer-panic-{}", what), format!("{} panicked on a parsed packet", what)); }
         // conversions that cannot succeed report an error or a lossy rendering; valid UTF-8 renders exactly
         for r in p.answers.iter() {
